@@ -92,7 +92,8 @@ def run(c):
         evaluations=rep["applied"] + rb["vectors"],
         distinct_nontrivial=len(nontriv) + rb["counts"].get("shifted", 0) if rb["distinct"] == rb["vectors"] else len(nontriv),
         rule="(a) every sequence of Set(id, w) calls of length <= %d over ids {1,2,3} and weights {0..3} (TLC, complete), each executed on the real "
-             "builder and compared in SortedIDs/SortedWeights/Idxs/GetIdx/GetID/GetWeightByIdx/Get/Exists/TotalWeight/Len, RLP round trip, Copy, Builder; "
+             "builder and compared in SortedIDs/SortedWeights/Idxs/GetIdx/GetID/GetWeightByIdx/Get/Exists/TotalWeight/Len, RLP round trip (into a fresh receiver, into a receiver holding an unrelated set, into a by-value copy of the previous set whose source "
+             "must stay unchanged; re-encoded bytes equal), Copy, Builder; "
              "non-trivial = distinct call sequences whose resulting set has >= 2 members; (b) big-stake vectors (boundary around 2^31, 2^32, 2^64, 2^255, "
              "2^256-1 and seeded random, 1-5 stakes), expected weights evaluated by TLC from BigStakes.tla; non-trivial = distinct vectors with a non-zero shift"
              % (4 if c.quick else 5),
